@@ -64,7 +64,8 @@ def search(pid, record):
                 w = json.loads(line)
                 w["scenario"] = "store-background"
                 return w
-        return {"found": False}
+        import syncsearch
+        return syncsearch.search(binary)
     if pid == "C15":
         h = _run(binary, ["server-slots"], timeout=300)
         for line in h.stdout.splitlines():
@@ -234,6 +235,10 @@ def execute(w):
         p = _run(binary, ["server-shutdown", str(w.get("seed", "1"))], timeout=300)
         found = p.returncode != 0 or any(l.startswith("{") and json.loads(l).get("found") for l in p.stdout.splitlines())
         return (not found), p.stdout.strip()[-700:]
+    if w.get("scenario") == "sync-interval":
+        import syncsearch
+        r = syncsearch.search(binary)
+        return (not r.get("found")), json.dumps(r)[:700]
     if w.get("scenario") == "client-search":
         p = _run(binary, ["client-search"], timeout=300)
         found = p.returncode != 0 or any(l.startswith("{") and json.loads(l).get("found") for l in p.stdout.splitlines())
